@@ -1,2 +1,663 @@
+'''C11 parts (c) and (d): element-index / local-coordinate functions, interfaces and locate.
+
+Geometric model (numpy only).  Every element of every topology in the family is
+described by its transform chain, read as data: the Index items name the base
+cell, the remaining items compose to an affine map from the element's reference
+to the local coordinates of the base cell (matrices .linear/.offset).  A base
+cell maps to physical space by a known formula (rectilinear: G(cell index +
+local)) or by an affine map calibrated once from the base domain's own vertex
+sample (simplex / mixed meshes).
+
+ (c) for a sample of topology T and an ancestor topology D (T was derived from D by
+     refined / refined_by / take / slice / subset / boundary / interfaces): D.f_index and
+     D.f_coords must evaluate to the D element that geometrically contains the
+     point (nudged towards the inside of the T element it belongs to) and to the
+     inverse image of the point under that element's map; T's own f_index /
+     f_coords must give (element number, the sample's own points); for interfaces the
+     same for opposite(.), and jump(geom) must vanish (modulo the period).
+ (d) locate: images of the returned points are within the requested tolerance
+     of the targets, in input order, and lie inside their element; certainly
+     interior targets are found; otherwise LocateError.
+'''
+
+import json, itertools
+import numpy
+from . import core
+
+EPS_NUDGE = 1e-3
+ATOL = 1e-10
+
+BASES = ['line3', 'line3p', 'rect22', 'rect22p0', 'rect23p1', 'tri2', 'mixed2']
+VOL_OPS = ['refined', 'rb_first', 'rb_last2', 'take_evens', 'slice', 'subset']
+FACET_OPS = ['boundary', 'interfaces']
+POST_OPS = ['refined', 'take_evens']
+
+
+# ---------------------------------------------------------------- family
+
+def build_base(name, gname='affine'):
+    '''returns dict(topo, geom, G (numpy), rect shape or None, period per dim, Lmax)'''
+    from nutils import mesh, function
+    if name.startswith('line') or name.startswith('rect'):
+        if name.startswith('line'):
+            D, g0 = mesh.rectilinear([3], periodic=(0,) if name.endswith('p') else ())
+            shape, per = (3,), ((0,) if name.endswith('p') else ())
+        else:
+            shape = (2, 3) if name.startswith('rect23') else (2, 2)
+            per = (0,) if name.endswith('p0') else (1,) if name.endswith('p1') else ()
+            D, g0 = mesh.rectilinear(list(shape), periodic=per)
+        nd = len(shape)
+        scale = numpy.array([2., .5][:nd])
+        shift = numpy.array([1., -1.][:nd])
+        if gname == 'affine':
+            geom = g0 * scale + shift
+            G = lambda x: x * scale + shift
+            lmax = 2.
+        elif gname == 'quad':  # mildly nonlinear, invertible on the domain
+            if nd == 1:
+                geom = g0 + .05 * g0 * g0
+                G = lambda x: x + .05 * x * x
+            else:
+                geom = g0 + .05 * numpy.stack([g0[1] * g0[1], g0[0] * g0[1]])
+                G = lambda x: x + .05 * numpy.stack([x[..., 1] * x[..., 1], x[..., 0] * x[..., 1]], axis=-1)
+            lmax = 2.
+        else:
+            raise core.HarnessError('unknown geometry ' + gname)
+        period = [shape[k] if k in per else 0 for k in range(nd)]
+        return dict(name=name, topo=D, geom=geom, G=G, shape=shape, period=period, lmax=lmax, cal=None, g0=g0)
+    if name in ('tri2', 'mixed2'):
+        D, geom = mesh.unitsquare(2, 'triangle' if name == 'tri2' else 'mixed')
+        return dict(name=name, topo=D, geom=geom, G=None, shape=None, period=[0, 0], lmax=1., cal={}, g0=None)
+    raise core.HarnessError('unknown base ' + name)
+
+
+def apply_topo_op(T, op):
+    n = len(T)
+    if op == 'refined':
+        return T.refined
+    if op == 'rb_first':
+        return T.refined_by([0])
+    if op == 'rb_last2':
+        return T.refined_by(sorted({max(0, n - 2), n - 1}))
+    if op == 'take_evens':
+        if n < 2:
+            return None
+        return T.take(list(range(0, n, 2)))
+    if op == 'slice':
+        if type(T).__name__ != 'StructuredTopology':
+            return None
+        return T[1:]
+    if op == 'subset':
+        if n < 2:
+            return None
+        return T.subset(T.take(list(range((n + 1) // 2))))
+    if op == 'boundary':
+        return T.boundary
+    if op == 'interfaces':
+        return T.interfaces
+    raise core.HarnessError('unknown op ' + op)
+
+
+def op_sequences(tier):
+    'operation sequences: volume ops (depth<=1 quick, <=2 thorough, plus selected pairs), optionally one facet op, optionally one post op'
+    vols = [[]] + [[v] for v in VOL_OPS]
+    pairs = [['refined', 'rb_first'], ['rb_first', 'rb_first'], ['rb_first', 'rb_last2'], ['take_evens', 'refined'], ['refined', 'take_evens'], ['subset', 'refined'], ['slice', 'rb_first'], ['rb_first', 'refined']]
+    if tier != 'quick':
+        pairs = [[a, b] for a in VOL_OPS for b in VOL_OPS]
+    vols += pairs
+    out = []
+    for v in vols:
+        out.append(v)
+        for f in FACET_OPS:
+            out.append(v + [f])
+            for p in POST_OPS:
+                if tier == 'quick' and len(v) == 2 and p == 'take_evens':
+                    continue
+                out.append(v + [f, p])
+    return out
+
+
+# ---------------------------------------------------------------- geometric model
+
+def compose(chain):
+    A = b = None
+    for item in chain:
+        L = numpy.asarray(item.linear, dtype=float)
+        o = numpy.asarray(item.offset, dtype=float)
+        if A is None:
+            A, b = L, o
+        else:
+            A, b = A @ L, A @ o + b
+    return A, b
+
+
+def cellid(chain):
+    from nutils import transform
+    return tuple(item.index for item in chain if isinstance(item, transform.Index))
+
+
+def inside(ref, xi, tol):
+    'is xi inside the reference element (line, triangle, tensor products of lines / points)'
+    n = type(ref).__name__
+    xi = numpy.asarray(xi)
+    if n in ('LineReference', 'PointReference') or (n == 'TensorReference' and all(type(r).__name__ in ('LineReference', 'PointReference') for r in _factors(ref))):
+        return bool((xi >= -tol).all() and (xi <= 1 + tol).all())
+    if n == 'TriangleReference':
+        return bool((xi >= -tol).all() and xi.sum() <= 1 + tol)
+    raise core.HarnessError('inside: unsupported reference {}'.format(ref))
+
+
+def _factors(ref):
+    if type(ref).__name__ == 'TensorReference':
+        return _factors(ref.ref1) + _factors(ref.ref2)
+    return [ref]
+
+
+class Geo:
+    'geometric description of one topology: per element (cell id, A, b, reference)'
+
+    def __init__(self, T, opposite=False):
+        seq = T.opposites if opposite else T.transforms
+        self.elems = []
+        self.bycell = {}
+        for i in range(len(T)):
+            chain = seq[i]
+            A, b = compose(chain)
+            cid = cellid(chain)
+            self.elems.append((cid, A, b, T.references[i], chain))
+            self.bycell.setdefault(cid, []).append(i)
+        self.ndims = T.ndims
+
+    def find(self, cid, q, tol=1e-9):
+        'indices of the elements of this topology whose image contains local point q of base cell cid'
+        hits = []
+        for i in self.bycell.get(cid, ()):
+            _, A, b, ref, _ = self.elems[i]
+            xi, res, rank, sv = numpy.linalg.lstsq(A, q - b, rcond=None)
+            if numpy.abs(A @ xi + b - q).max() > tol:
+                continue
+            if inside(ref, xi, tol):
+                hits.append(i)
+        return hits
+
+    def invert(self, i, x):
+        _, A, b, ref, _ = self.elems[i]
+        xi = numpy.linalg.lstsq(A, (x - b).T, rcond=None)[0].T
+        return xi
+
+
+def region_centroid(chain, m, cellref):
+    '''centroid (cell-local coordinates) of the m-dimensional region the chain passes through last:
+    the image of the reference reached by the longest head of the chain that still has fromdims >= m'''
+    ref = cellref
+    k = 0
+    from nutils import transform
+    while k < len(chain) and isinstance(chain[k], transform.Index):
+        k += 1
+    head = k
+    for j in range(k, len(chain)):
+        item = chain[j]
+        if item.fromdims < m:
+            break
+        if item.fromdims == item.todims:
+            idx = [n for n, t in enumerate(ref.child_transforms) if t == item]
+            if not idx:
+                return None
+            ref = ref.child_refs[idx[0]]
+        else:
+            idx = [n for n, t in enumerate(ref.edge_transforms) if t == item]
+            if not idx:
+                return None
+            ref = ref.edge_refs[idx[0]]
+        head = j + 1
+    if ref.ndims != m:
+        return None
+    c = numpy.asarray(ref.vertices, dtype=float).mean(axis=0) if ref.ndims else numpy.zeros(0)
+    A, b = compose(chain[:head])
+    return A @ c + b
+
+
+class Family:
+    'base domain + physical map of its cells'
+
+    def __init__(self, base):
+        self.base = base
+        D = base['topo']
+        self.cellref = {}
+        self.cellphys = {}
+        g = Geo(D)
+        for i, (cid, A, b, ref, chain) in enumerate(g.elems):
+            self.cellref[cid] = ref
+        if base['cal'] is not None:
+            # calibrate an affine cell->physical map from the base domain's own vertex sample
+            smp = D.sample('bezier', 2)
+            Xall = numpy.asarray(smp.eval(base['geom']))
+            for i, (cid, A, b, ref, chain) in enumerate(g.elems):
+                X = Xall[numpy.asarray(smp.getindex(i))]
+                P = numpy.asarray(smp.points[i].coords, dtype=float)
+                M = numpy.concatenate([numpy.ones((len(P), 1)), P], axis=1)
+                coef = numpy.linalg.lstsq(M, X, rcond=None)[0]
+                if numpy.abs(M @ coef - X).max() > 1e-12:
+                    raise core.HarnessError('calibration: element {} of {} is not affine'.format(i, base['name']))
+                self.cellphys[cid] = coef
+
+    def phys(self, cid, local):
+        b = self.base
+        local = numpy.asarray(local, dtype=float)
+        if b['cal'] is None:
+            idx = numpy.array(cid[1:], dtype=float)  # cid = (root index, cell index per dimension)
+            return b['G'](idx + local)
+        coef = self.cellphys[cid]
+        return coef[0] + local @ coef[1:]
+
+
+# ---------------------------------------------------------------- (c)
+
+class Bad(Exception):
+    def __init__(self, key, what):
+        self.key, self.what = key, what
+
+
+def topo_kind(T):
+    return type(T).__name__.replace('Topology', '') + '<' + type(T.transforms).__name__.replace('Transforms', '') + '>'
+
+
+def check_sample(fam, ancestors, T, scheme, degree, res=None, is_interface=False):
+    '''ancestors: list of (name, topology) that T derives from (coarser or equal, covering T); raises Bad'''
+    from nutils import function
+    base = fam.base
+    geom = base['geom']
+    smp = T.sample(scheme, degree)
+    tk = topo_kind(T)
+    has_opp = is_interface  # structured boundaries carry opposites that point outside the domain: opposite(.) is only defined on interfaces
+    funcs = [T.f_index, T.f_coords, geom]
+    for name, D in ancestors:
+        funcs += [D.f_index, D.f_coords]
+    if has_opp:
+        funcs += [function.opposite(geom), function.jump(geom)]
+        for name, D in ancestors:
+            if D.ndims == base['topo'].ndims:
+                funcs += [function.opposite(D.f_index), function.opposite(D.f_coords)]
+    try:
+        vals = smp.eval(funcs)
+    except Exception as e:
+        raise Bad('eval:raise:{}:{}'.format(type(e).__name__, tk), 'sample.eval raised {!r}'.format(e))
+    vals = [numpy.asarray(v) for v in vals]
+    own_i, own_x, gv = vals[:3]
+    geoT = Geo(T)
+    geoO = Geo(T, opposite=True) if has_opp else None
+    geoD = [(name, D, Geo(D)) for name, D in ancestors]
+    neval = 0
+    for j in range(len(T)):
+        idx = numpy.asarray(smp.getindex(j))
+        pts = numpy.asarray(smp.points[j].coords, dtype=float)
+        if len(idx) != len(pts):
+            raise Bad('own:getindex:' + tk, 'element {}: getindex has {} entries for {} points'.format(j, len(idx), len(pts)))
+        # (c1) own index / coordinates
+        if not (own_i[idx] == j).all():
+            raise Bad('own:index:' + tk, 'f_index evaluates to {} on element {} of its own sample'.format(sorted(set(own_i[idx].tolist())), j))
+        if own_x[idx].shape != pts.shape or numpy.abs(own_x[idx] - pts).max(initial=0) > ATOL:
+            raise Bad('own:coords:' + tk, 'f_coords on element {} of its own sample differs from the sample points by {}'.format(j, numpy.abs(own_x[idx] - pts).max()))
+        neval += 1
+        sides = [('', geoT, 0)]
+        if has_opp:
+            sides.append(('opposite:', geoO, 1))
+        physs = []
+        for sname, geo, iside in sides:
+            cid, A, b, ref, chain = geo.elems[j]
+            if cid not in fam.cellref:
+                raise Bad('model:cell:' + tk, '{}element {} refers to unknown base cell {}'.format(sname, j, cid))
+            local = pts @ A.T + b
+            X = fam.phys(cid, local)
+            physs.append(X)
+            got = gv[idx] if iside == 0 else vals[3 + 2 * len(ancestors)][idx]
+            if got.shape != X.shape or numpy.abs(got - X).max(initial=0) > ATOL:
+                raise Bad('{}geom:{}'.format(sname, tk), '{}geom on element {} is off by {} from the chain model'.format(sname, j, numpy.abs(got - X).max()))
+            # (c2) ancestors
+            k = 0
+            for ia, (name, D, gD) in enumerate(geoD):
+                if iside == 1:
+                    if D.ndims != base['topo'].ndims:
+                        continue
+                    gi = vals[5 + 2 * len(ancestors) + 2 * k][idx]
+                    gx = vals[6 + 2 * len(ancestors) + 2 * k][idx]
+                    k += 1
+                else:
+                    gi = vals[3 + 2 * ia][idx]
+                    gx = vals[4 + 2 * ia][idx]
+                cR = region_centroid(chain, D.ndims, fam.cellref[cid])
+                if cR is None:
+                    if res is not None:
+                        res.count('model_undecided')
+                    continue
+                cT = A @ (numpy.asarray(ref.vertices, dtype=float).mean(axis=0) if ref.ndims else numpy.zeros(0)) + b
+                for ip in range(len(pts)):
+                    # first into the relative interior of the T element, then (much less) into the region it hangs from
+                    q = local[ip] + EPS_NUDGE * (cT - local[ip])
+                    q = q + EPS_NUDGE * 1e-2 * (cR - q)
+                    hits = gD.find(cid, q)
+                    if len(hits) != 1:
+                        if res is not None:
+                            res.count('model_undecided')
+                        continue
+                    xi = gD.invert(hits[0], local[ip][None])[0]
+                    neval += 1
+                    if gi[ip] != hits[0]:
+                        raise Bad('{}index:{}:{}'.format(sname, topo_kind(D), tk), '{}{}.f_index = {} at point {} of element {} but the point (cell {}, local {}) lies in element {}'.format(
+                            sname, name, gi[ip], ip, j, cid, local[ip].tolist(), hits[0]))
+                    if numpy.abs(gx[ip] - xi).max(initial=0) > ATOL:
+                        raise Bad('{}coords:{}:{}'.format(sname, topo_kind(D), tk), '{}{}.f_coords = {} at point {} of element {} but the inverse image is {}'.format(
+                            sname, name, gx[ip].tolist(), ip, j, xi.tolist()))
+        if has_opp:
+            # both sides of the interface: same physical location, modulo the period
+            jv = vals[4 + 2 * len(ancestors)][idx]
+            d = physs[1] - physs[0]
+            if base['cal'] is None:
+                P = numpy.array([abs(base['G'](numpy.eye(len(base['period']))[kk] * base['period'][kk]) - base['G'](numpy.zeros(len(base['period']))))[kk] if base['period'][kk] else 0. for kk in range(len(base['period']))])
+            else:
+                P = numpy.zeros(d.shape[-1])
+            for kk in range(d.shape[-1]):
+                ok = numpy.abs(d[:, kk]) < ATOL
+                if P[kk]:
+                    ok |= numpy.abs(numpy.abs(d[:, kk]) - P[kk]) < ATOL
+                if not ok.all():
+                    raise Bad('interface:location:' + tk, 'the two sides of interface element {} are at different physical locations: {} vs {}'.format(j, physs[0].tolist(), physs[1].tolist()))
+            # sign convention of jump is opposite - self or self - opposite; either way its magnitude must match the model
+            if jv.shape != d.shape or numpy.abs(numpy.abs(jv) - numpy.abs(d)).max(initial=0) > ATOL:
+                raise Bad('interface:jump:' + tk, 'jump(geom) = {} on interface element {}, model {}'.format(jv.tolist(), j, d.tolist()))
+            if not P.any() and numpy.abs(jv).max(initial=0) > ATOL:
+                raise Bad('interface:jump:' + tk, 'jump(geom) = {} on interface element {}'.format(jv.tolist(), j))
+    return neval
+
+
+_STATES = {}
+
+
+def build_state(basename, ops, gname='affine'):
+    key = basename, tuple(ops), gname
+    if key not in _STATES:
+        if len(_STATES) > 4:
+            _STATES.clear()
+        _STATES[key] = _build_state(basename, ops, gname)
+    return _STATES[key]
+
+
+def _build_state(basename, ops, gname='affine'):
+    '''returns (family, [(name, topo) ...] prefix states incl. the last) or None if a topology operation is not applicable / raises'''
+    base = build_base(basename, gname)
+    fam = Family(base)
+    T = base['topo']
+    states = [('base', T)]
+    for k, op in enumerate(ops):
+        try:
+            T = apply_topo_op(T, op)
+            if T is None:
+                return None
+            len(T), T.transforms, T.opposites, T.references
+        except Exception:
+            return None
+        states.append(('/'.join(ops[:k + 1]), T))
+    return fam, states
+
+
+SCHEMES = [('gauss', 2), ('bezier', 2)]
+
+
+def check_state(basename, ops, res=None):
+    'returns None or (key, what)'
+    st = build_state(basename, ops)
+    if st is None:
+        return 'inapplicable'
+    fam, states = st
+    T = states[-1][1]
+    if len(T) == 0:
+        return 'empty'
+    ancestors = states[:-1]
+    n = 0
+    for scheme, degree in SCHEMES:
+        try:
+            n += check_sample(fam, ancestors, T, scheme, degree, res, 'interfaces' in ops)
+        except Bad as b:
+            return b.key, '{} {} sample {}{}: {}'.format(basename, ops, scheme, degree, b.what)
+    return n
+
+
+# ---------------------------------------------------------------- (d) locate
+
+LOC_VARIANTS = [dict(tol=1e-10), dict(eps=1e-10), dict(tol=1e-4, eps=1e-6), dict(eps=.05)]
+
+
+def ref_probe(ref):
+    'reference points of an element: interior, vertex, edge midpoint'
+    v = numpy.asarray(ref.vertices, dtype=float)
+    n = type(ref).__name__
+    nd = ref.ndims
+    if n == 'TriangleReference':
+        interior = numpy.array([.2, .3])
+    else:
+        interior = numpy.array([.3, .4, .35][:nd])
+    out = [('interior', interior), ('vertex', v[0])]
+    if nd >= 1:
+        out.append(('edgemid', (v[0] + v[1]) / 2 if nd > 1 else v[-1]))
+    return out
+
+
+def locate_targets(fam, T, with_boundary_points):
+    '''targets as (class, physical point, certainly interior?) built from the chain model'''
+    geo = Geo(T)
+    targets = []
+    n = len(T)
+    sel = range(n) if n <= 6 else sorted({0, 1, n // 2, n - 2, n - 1})
+    for j in sel:
+        cid, A, b, ref, chain = geo.elems[j]
+        for cls, p in ref_probe(ref):
+            if cls != 'interior' and not with_boundary_points:
+                continue
+            X = fam.phys(cid, A @ p + b)
+            targets.append((cls, X, cls == 'interior'))
+    pts = numpy.array([t[1] for t in targets])
+    # drop duplicates (shared vertices): keep first
+    keep = []
+    for i, t in enumerate(targets):
+        if all(numpy.abs(t[1] - targets[k][1]).max() > .02 for k in keep):
+            keep.append(i)
+    targets = [targets[i] for i in keep]
+    hi = pts.max(axis=0)
+    lo = pts.min(axis=0)
+    return targets, lo, hi
+
+
+def check_locate(basename, ops, gname, variant, skip_missing, tset, maxdist, nprocs, res=None):
+    '''one locate call; returns None / (key, what) / 'inapplicable' / outcome string'''
+    from nutils import parallel
+    from nutils.topology import LocateError
+    st = build_state(basename, ops, gname)
+    if st is None:
+        return 'inapplicable'
+    fam, states = st
+    T = states[-1][1]
+    if len(T) == 0:
+        return 'inapplicable'
+    base = fam.base
+    geom = base['geom']
+    tk = topo_kind(T)
+    targets, lo, hi = locate_targets(fam, T, tset == 'on')
+    nd = len(lo)
+    tol = variant.get('tol', 0)
+    eps = variant.get('eps', 0)
+    bound = max(tol, eps * base['lmax']) * 1.001 + 1e-11
+    # order: interleave so that consecutive targets belong to different elements
+    order = list(range(len(targets)))
+    order = order[1::2][::-1] + order[0::2]
+    tg = [targets[i] for i in order]
+    if tset == 'just':
+        d = numpy.zeros(nd)
+        d[0] = 1e-7
+        tg.insert(1, ('just-outside', hi + d, False))
+    elif tset == 'far':
+        tg.insert(1, ('far-outside', hi + 10., False))
+        tg.append(('far-outside', lo - 7., False))
+    coords = numpy.array([t[1] for t in tg])
+    kwargs = dict(variant, skip_missing=skip_missing)
+    if maxdist:
+        kwargs['maxdist'] = maxdist
+    try:
+        with parallel.maxprocs(nprocs):
+            smp = T.locate(geom, coords, **kwargs)
+    except LocateError as e:
+        # raising is only acceptable if something may legitimately be missing
+        if skip_missing:
+            return 'locate:skip-missing-raised:' + ('manifold' if T.ndims < nd else 'volume'), 'locate(skip_missing=True) raised LocateError {!r}'.format(e)
+        if tset == 'in':
+            return 'locate:interior-not-found:' + ('manifold' if T.ndims < nd else 'volume') + ':' + type(T).__name__, 'LocateError {!r} although all targets are element-interior points'.format(e)
+        return 'raised'
+    except Exception as e:
+        return 'locate:raise:{}:{}'.format(type(e).__name__, tk), 'locate raised {!r}'.format(e)
+    try:
+        Y, fi, fx = [numpy.asarray(v) for v in smp.eval([geom, T.f_index, T.f_coords])]
+    except Exception as e:
+        return 'locate:eval-raise:{}:{}'.format(type(e).__name__, tk), 'evaluating the located sample raised {!r}'.format(e)
+    if Y.ndim == 1:
+        Y = Y[:, None]
+    if not skip_missing and len(Y) != len(coords):
+        return 'locate:count:' + ('manifold' if T.ndims < nd else 'volume'), 'located sample has {} points for {} targets'.format(len(Y), len(coords))
+    # in-order matching against the targets
+    manifold = 'manifold' if T.ndims < nd else 'volume'
+    which = 'tol' if not eps else 'eps' if not tol else 'tol+eps'
+    positional = not skip_missing or len(Y) == len(coords)  # nothing was skipped: point k belongs to target k
+    pos = 0
+    matched = []
+    for k in range(len(Y)):
+        found = None
+        rng = range(pos, len(coords)) if positional is False else [k]
+        for m in rng:
+            if numpy.linalg.norm(Y[k] - coords[m]) <= bound:
+                found = m
+                break
+        if found is None:
+            dist = numpy.linalg.norm(coords - Y[k], axis=1)
+            m = int(dist.argmin())
+            others = [mm for mm in range(len(coords)) if mm != k and dist[mm] <= bound]
+            if not positional and dist[m] <= bound:
+                return 'locate:order:' + manifold, 'located point {} maps to {} which is target {}: not in input order (targets {})'.format(k, Y[k].tolist(), m, [t[0] for t in tg])
+            if positional and others and any(numpy.linalg.norm(Y[kk] - coords[k]) <= bound for kk in range(len(Y)) if kk != k):
+                return 'locate:order:' + manifold, 'located point {} maps to {} which is target {}, and target {} is the image of another point: not in input order'.format(k, Y[k].tolist(), others[0], k)
+            mm = k if positional else m
+            return 'locate:tolerance:{}:{}'.format(manifold, 'target-on-topology' if tg[mm][0] in ('interior', 'vertex', 'edgemid') else 'target-off-topology'), 'located point {} maps to {}; {} target {} ({}) is at distance {} > {} (tol={}, eps={})'.format(
+                k, Y[k].tolist(), 'its' if positional else 'the nearest', coords[mm].tolist(), tg[mm][0], dist[mm], bound, tol, eps)
+        matched.append(found)
+        pos = found + 1
+    # located points lie in their element
+    slack = max(tol, eps) / .5 * 1.01 + 1e-9
+    for k in range(len(Y)):
+        ref = T.references[int(fi[k])]
+        if not ref.inside(fx[k], slack):
+            return 'locate:outside-element:' + manifold, 'target {} ({}) was located at local point {} of element {}, outside the element'.format(coords[matched[k]].tolist(), tg[matched[k]][0], fx[k].tolist(), int(fi[k]))
+    if skip_missing:
+        missing = [m for m in range(len(coords)) if m not in matched]
+        for m in missing:
+            if tg[m][2] and not maxdist:
+                return 'locate:interior-dropped:' + manifold, 'skip_missing dropped the element-interior target {}'.format(coords[m].tolist())
+    return 'located:{}/{}'.format(len(Y), len(coords))
+
+
+def locate_ops(tier):
+    seqs = [[], ['refined'], ['rb_first'], ['take_evens'], ['subset'], ['boundary']]
+    if tier != 'quick':
+        seqs += [['slice'], ['rb_first', 'boundary'], ['refined', 'rb_first'], ['rb_first', 'rb_last2'], ['interfaces'], ['subset', 'refined'], ['refined', 'boundary'], ['take_evens', 'refined']]
+    return seqs
+
+
+def locate_calls(tier):
+    'the (variant, skip_missing, target set, maxdist, nprocs) combinations'
+    out = []
+    if tier == 'quick':
+        for iv in range(len(LOC_VARIANTS)):
+            for tset in ('in', 'on', 'just', 'far'):
+                out.append((iv, False, tset, 0, 1))
+        out += [(0, True, 'far', 0, 1), (3, True, 'just', 0, 1), (1, True, 'on', 0, 1)]
+        out += [(0, False, 'in', 1.2, 1), (0, True, 'far', 1.2, 1)]
+        out += [(0, False, 'in', 0, 2), (0, True, 'far', 0, 2), (3, False, 'on', 0, 2)]
+        return out
+    for iv, v in enumerate(LOC_VARIANTS):
+        for skip in (False, True):
+            for tset in ('in', 'on', 'just', 'far'):
+                out.append((iv, skip, tset, 0, 1))
+                if iv in (0, 3):
+                    out.append((iv, skip, tset, 0, 2))
+                if iv == 0:
+                    out.append((iv, skip, tset, 1.2, 1))
+    return out
+
+
+LOCATE_SHARDS = {'quick': [('line3', 'affine'), ('rect22', 'affine'), ('rect22', 'quad'), ('rect22p0', 'affine'), ('tri2', 'affine'), ('mixed2', 'affine')],
+                 'thorough': [('line3', 'affine'), ('line3', 'quad'), ('line3p', 'affine'), ('rect22', 'affine'), ('rect22', 'quad'), ('rect22p0', 'affine'), ('rect23p1', 'affine'),
+                              ('rect23p1', 'quad'), ('tri2', 'affine'), ('mixed2', 'affine')]}
+
+
+# ---------------------------------------------------------------- shards / run / replay
+
 def shards(tier):
-    return []
+    out = []
+    for b in BASES:
+        seqs = op_sequences(tier)
+        nchunk = 2 if tier == 'quick' else 6
+        for k in range(nchunk):
+            out.append({'kind': 'topo', 'base': b, 'chunk': k, 'nchunk': nchunk})
+    nchunk = 2 if tier == 'quick' else 7
+    for b, g in LOCATE_SHARDS[tier]:
+        for k in range(nchunk):
+            out.append({'kind': 'locate', 'base': b, 'geom': g, 'chunk': k, 'nchunk': nchunk})
+    return out
+
+
+def run(spec, tier, res):
+    if spec['kind'] == 'topo':
+        seqs = op_sequences(tier)[spec['chunk']::spec['nchunk']]
+        for ops in seqs:
+            w = {'kind': 'topo', 'base': spec['base'], 'ops': ops}
+            try:
+                r = check_state(spec['base'], ops, res)
+            except core.HarnessError:
+                raise
+            if r == 'inapplicable' or r == 'empty':
+                res.count('topology_ops_inapplicable')
+                continue
+            if isinstance(r, tuple):
+                res.violation('topo:' + r[0], r[1], w)
+                continue
+            res.count('evaluations', r)
+            res.count('states')
+            res.count('transitions', len(ops))
+            res.count('traces_validated_against_impl')
+            if ops:
+                res.distinct('distinct_nontrivial', json.dumps(w))
+            if len(res.samples) < 1 and len(ops) == 2:
+                res.sample({'part': 'topo', 'base': spec['base'], 'ops': ops, 'point_evaluations': r})
+        return
+    calls = locate_calls(tier)
+    seqs = locate_ops(tier)[spec['chunk']::spec['nchunk']]
+    for ops in seqs:
+        for iv, skip, tset, maxdist, nprocs in calls:
+            w = {'kind': 'locate', 'base': spec['base'], 'geom': spec['geom'], 'ops': ops, 'variant': iv, 'skip_missing': skip, 'tset': tset, 'maxdist': maxdist, 'nprocs': nprocs}
+            r = check_locate(spec['base'], ops, spec['geom'], LOC_VARIANTS[iv], skip, tset, maxdist, nprocs, res)
+            if r == 'inapplicable':
+                res.count('topology_ops_inapplicable')
+                break
+            if isinstance(r, tuple):
+                res.violation(r[0], r[1], w)
+                continue
+            res.count('evaluations')
+            res.count('locate_calls')
+            res.distinct('distinct_outcomes', 'locate:' + r.split(':')[0] + ':' + tset + (':skip' if skip else ''))
+            res.distinct('distinct_nontrivial', json.dumps(w))
+            if len(res.samples) < 1 and tset == 'far' and skip:
+                res.sample({'part': 'locate', 'witness': w, 'outcome': r})
+
+
+def replay(w):
+    if w['kind'] == 'topo':
+        r = check_state(w['base'], w['ops'])
+        return '{}: {}'.format(*r) if isinstance(r, tuple) else None
+    r = check_locate(w['base'], w['ops'], w['geom'], LOC_VARIANTS[w['variant']], w['skip_missing'], w['tset'], w['maxdist'], w['nprocs'])
+    return '{}: {}'.format(*r) if isinstance(r, tuple) else None
